@@ -673,6 +673,43 @@ static bool emitPrefix(Type* t, const std::string& dst, const std::string& src, 
     return false;
 }
 
+// Copy between a typed lvalue of type t and raw bytes at (char*)bytes + off, leaf by leaf.
+// toTyped: typed <- bytes, else bytes <- typed.
+static bool emitLeafCopy(Type* t, const std::string& typed, const std::string& bytes, uint64_t off, bool toTyped, std::ostream& os)
+{
+    if (auto* st = dyn_cast<StructType>(t))
+    {
+        if (st->isOpaque())
+            return false;
+        const StructLayout* sl = DL->getStructLayout(st);
+        defineStruct(st);
+        for (unsigned i = 0; i < st->getNumElements(); ++i)
+            if (!emitLeafCopy(st->getElementType(i), typed + ".f" + std::to_string(i), bytes, off + sl->getElementOffset(i), toTyped, os))
+                return false;
+        return true;
+    }
+    if (auto* at = dyn_cast<ArrayType>(t))
+    {
+        uint64_t sz = DL->getTypeAllocSize(at->getElementType());
+        if (at->getNumElements() > 64)
+            return false;
+        for (uint64_t i = 0; i < at->getNumElements(); ++i)
+            if (!emitLeafCopy(at->getElementType(), typed + ".e[" + std::to_string(i) + "]", bytes, off + i * sz, toTyped, os))
+                return false;
+        return true;
+    }
+    if (!(t->isIntegerTy() || t->isPointerTy() || t->isFloatingPointTy()))
+        return false;
+    if (t->isIntegerTy() && t->getIntegerBitWidth() % 8 != 0)
+        return false;
+    std::string acc = "*(" + useTy(t) + "*)((char*)" + bytes + " + " + std::to_string(off) + ")";
+    if (toTyped)
+        os << "    " << typed << " = " << acc << ";\n";
+    else
+        os << "    " << acc << " = " << typed << ";\n";
+    return true;
+}
+
 // pointee type of p with bitcasts stripped, if it is a sized struct/array at least `len` bytes long
 static Type* prefixPointee(const Value* p, const Value* len)
 {
@@ -1060,6 +1097,27 @@ static void emitFunction(const Function& F, std::ostream& out)
                                 os << "    *(" << tn << "*)" << valueName(call->getArgOperand(0)->stripPointerCasts(), fc) << " = *(" << tn << "*)"
                                    << valueName(call->getArgOperand(1)->stripPointerCasts(), fc) << ";\n";
                                 break;
+                            }
+                            // whole typed object <-> raw bytes: leaf-wise typed accesses
+                            if (typedMem && td && td != ts)
+                            {
+                                std::ostringstream tmp;
+                                std::string tn = useTy(td);
+                                if (emitLeafCopy(td, "(*(" + tn + "*)" + valueName(call->getArgOperand(0)->stripPointerCasts(), fc) + ")", arg(1), 0, true, tmp))
+                                {
+                                    os << tmp.str();
+                                    break;
+                                }
+                            }
+                            if (typedMem && ts && td != ts)
+                            {
+                                std::ostringstream tmp;
+                                std::string tn = useTy(ts);
+                                if (emitLeafCopy(ts, "(*(" + tn + "*)" + valueName(call->getArgOperand(1)->stripPointerCasts(), fc) + ")", arg(0), 0, false, tmp))
+                                {
+                                    os << tmp.str();
+                                    break;
+                                }
                             }
                             td = prefixPointee(call->getArgOperand(0), call->getArgOperand(2));
                             ts = prefixPointee(call->getArgOperand(1), call->getArgOperand(2));
